@@ -36,6 +36,7 @@ def entries():
     R('C16', 'break/use_up_rounds_down_twice', 'meshes.py', r'nr \+= int\(np\.ceil\(remain/2\)\)', 'nr += int(np.floor(remain/2))', 'violation')
     R('C16', 'break/second_stage_over_survey_domain', 'meshes.py', r'sd_edges, sd_hx, ca, nx, comp_domain, use_up=True', 'sd_edges, sd_hx, ca, nx, domain, use_up=True', 'violation')
     R('C16', 'break/missing_direction_not_reported', 'meshes.py', r'for out in \[x0, y0, z0\]\]\)', 'for out in [x0, y0]])', 'violation')
+    R('C16', 'break/false_entries_of_direction_specific_options_dropped', 'meshes.py', r'if value\[i\] is not None:', 'if value[i]:', 'violation', only='option_formats')
     # --- harmless edits
     R('C01', 'harmless/reordered_divergence_test', 'solver.py', r'elif l2_last > 10\*var\.l2_refe or not np\.isfinite\(l2_last\):',
       'elif not np.isfinite(l2_last) or l2_last > 10*var.l2_refe:', 'held')
